@@ -99,6 +99,7 @@ Definition request_with_config (cf : config) (buf : list N) (rq : request) : rq_
   let rq0 := mkreq (q_method rq) (q_path rq) (q_version rq) [] in   (* mem::take *)
   match request_core cf buf rq0 headers with
   | (Complete n, rq', arr') => (Complete n, rq', arr')
+  | (Faulted f, rq', arr') => (Faulted f, rq', arr')      (* a panic: nothing is put back (never happens: C01) *)
   | (other, rq', arr') =>
       (other, mkreq (q_method rq') (q_path rq') (q_version rq') arr', arr')
   end.
@@ -107,6 +108,7 @@ Definition response_with_config (cf : config) (buf : list N) (rp : response) : r
   let rp0 := mkresp (p_version rp) (p_code rp) (p_reason rp) [] in
   match response_core cf buf rp0 headers with
   | (Complete n, rp', arr') => (Complete n, rp', arr')
+  | (Faulted f, rp', arr') => (Faulted f, rp', arr')
   | (other, rp', arr') =>
       (other, mkresp (p_version rp') (p_code rp') (p_reason rp') arr', arr')
   end.
